@@ -81,6 +81,129 @@ Section Rt.
   Qed.
 End Rt.
 
+(* ------------------------------------------------------------------ the worklist [reach] computes a closed set *)
+Open Scope nat_scope.
+Section Reach.
+  Variable T : space.
+  Let dom : list id := map fst (sp_entries T).
+  Hypothesis Hnd : NoDup dom.
+  Hypothesis Hset : rt_set T dom = true.
+
+  Definition kids (i : id) : list id := match get_det T i with Some d => children d | None => [] end.
+
+  Lemma dom_node i : In i dom -> exists d, get_det T i = Some d /\ node_ok T d = true /\ (forall c, In c (children d) -> In c dom).
+  Proof.
+    intro Hi. unfold rt_set in Hset. rewrite forallb_forall in Hset. specialize (Hset i Hi).
+    destruct (get_det T i) as [d|]; [|discriminate]. apply andb_true_iff in Hset. destruct Hset as [H1 H2].
+    exists d. split; [reflexivity|]. split; [exact H1|]. intros c Hc. rewrite forallb_forall in H2.
+    apply mem_id_In. exact (H2 c Hc).
+  Qed.
+
+  (* weight of the ids not yet seen *)
+  Fixpoint wgt (l : list id) (seen : list id) : nat :=
+    match l with
+    | [] => 0
+    | i :: r => (if mem_id i seen then 0 else 1 + length (kids i)) + wgt r seen
+    end.
+
+  Lemma wgt_add l : forall i seen, ~ In i l -> wgt l (i :: seen) = wgt l seen.
+  Proof.
+    induction l as [|j l IH]; intros i seen Hn; [reflexivity|]. cbn [wgt].
+    rewrite IH by (intro H; apply Hn; right; exact H).
+    assert (E : mem_id j (i :: seen) = mem_id j seen).
+    { unfold mem_id. cbn [existsb]. destruct (N.eqb j i) eqn:E; [|reflexivity].
+      apply N.eqb_eq in E. subst. exfalso. apply Hn. left. reflexivity. }
+    rewrite E. reflexivity.
+  Qed.
+
+  Lemma wgt_see l : forall i seen, NoDup l -> In i l -> mem_id i seen = false ->
+    wgt l seen = 1 + length (kids i) + wgt l (i :: seen).
+  Proof.
+    induction l as [|j l IH]; intros i seen Hn Hi Hs; [destruct Hi|]. inversion Hn as [|? ? Hj Hl]; subst.
+    cbn [wgt]. destruct Hi as [->|Hi].
+    - rewrite Hs. rewrite (wgt_add l i seen Hj).
+      assert (E : mem_id i (i :: seen) = true) by (unfold mem_id; cbn [existsb]; rewrite N.eqb_refl; reflexivity).
+      rewrite E. lia.
+    - rewrite (IH i seen Hl Hi Hs).
+      assert (E : mem_id j (i :: seen) = mem_id j seen).
+      { unfold mem_id. cbn [existsb]. destruct (N.eqb j i) eqn:E; [|reflexivity].
+        apply N.eqb_eq in E. subst. contradiction. }
+      rewrite E. lia.
+  Qed.
+
+  Definition closedI (todo seen : list id) : Prop :=
+    (forall j, In j seen -> In j dom) /\ (forall j, In j todo -> In j dom) /\
+    (forall j, In j seen -> forall c, In c (kids j) -> In c seen \/ In c todo).
+
+  Lemma reach_closed : forall fuel todo seen,
+    closedI todo seen -> length todo + wgt dom seen < fuel ->
+    let R := reach T fuel todo seen in
+    (forall j, In j seen -> In j R) /\ (forall j, In j todo -> In j R) /\
+    (forall j, In j R -> In j dom) /\ (forall j, In j R -> forall c, In c (kids j) -> In c R).
+  Proof.
+    induction fuel as [|fuel IH]; intros todo seen HI Hf; [lia|].
+    destruct HI as (Hs & Ht & Hc). cbn [reach].
+    destruct todo as [|i r].
+    - cbn zeta. repeat split; try tauto.
+      + intros j []. 
+      + intros j Hj c Hcj. destruct (Hc j Hj c Hcj) as [H|[]]. exact H.
+    - destruct (mem_id i seen) eqn:Hm.
+      + assert (HI' : closedI r seen).
+        { split; [exact Hs|]. split; [intros j Hj; apply Ht; right; exact Hj|].
+          intros j Hj c Hcj. destruct (Hc j Hj c Hcj) as [H|[<-|H]]; [left; exact H|left; apply mem_id_In; exact Hm|right; exact H]. }
+        cbn [length] in Hf. destruct (IH r seen HI' ltac:(lia)) as (A & B & C & E).
+        cbn zeta. split; [exact A|]. split; [|split; [exact C|exact E]].
+        intros j [<-|Hj]; [apply A; apply mem_id_In; exact Hm|exact (B j Hj)].
+      + assert (Hid : In i dom) by (apply Ht; left; reflexivity).
+        destruct (dom_node i Hid) as (d & Hd & _ & Hch). rewrite Hd.
+        assert (Hk : kids i = children d) by (unfold kids; rewrite Hd; reflexivity).
+        assert (HI' : closedI (children d ++ r) (i :: seen)).
+        { split; [intros j [<-|Hj]; [exact Hid|exact (Hs j Hj)]|].
+          split; [intros j Hj; apply in_app_or in Hj; destruct Hj as [Hj|Hj]; [exact (Hch j Hj)|apply Ht; right; exact Hj]|].
+          intros j [<-|Hj] c Hcj.
+          - right. apply in_or_app. left. rewrite <- Hk. exact Hcj.
+          - destruct (Hc j Hj c Hcj) as [H|[<-|H]]; [left; right; exact H|left; left; reflexivity|right; apply in_or_app; right; exact H]. }
+        pose proof (wgt_see dom i seen Hnd Hid Hm) as Hw. rewrite Hk in Hw.
+        cbn [length] in Hf.
+        destruct (IH (children d ++ r) (i :: seen) HI' ltac:(rewrite app_length; lia)) as (A & B & C & E).
+        cbn zeta. split; [intros j Hj; apply A; right; exact Hj|]. split; [|split; [exact C|exact E]].
+        intros j [<-|Hj]; [apply A; left; reflexivity|apply B; apply in_or_app; right; exact Hj].
+  Qed.
+
+  Lemma wgt_total : wgt dom [] <= length (sp_entries T) + fold_right (fun e a => length (children (e_det (snd e))) + a)%nat 0%nat (sp_entries T).
+  Proof.
+    unfold dom. assert (Hnd' := Hnd). unfold dom in Hnd'. clear Hset.
+    assert (G : forall l, NoDup (map fst l) -> (forall i e, In (i, e) l -> get T i = Some e) ->
+              wgt (map fst l) [] <= length l + fold_right (fun e a => length (children (e_det (snd e))) + a)%nat 0%nat l).
+    { induction l as [|[i e] l IH]; intros Hn Hg; [cbn; lia|].
+      cbn [map fst wgt length fold_right snd mem_id existsb]. inversion Hn; subst.
+      assert (Hk : kids i = children (e_det e)).
+      { unfold kids, get_det. rewrite (Hg i e (or_introl eq_refl)). reflexivity. }
+      rewrite Hk. specialize (IH ltac:(assumption) ltac:(intros j e' Hj; apply Hg; right; exact Hj)). lia. }
+    apply G; [exact Hnd'|].
+    intros i e Hin. unfold get. clear - Hin Hnd'. induction (sp_entries T) as [|[j x] l IH]; [destruct Hin|].
+    cbn [lookup_id]. cbn [map fst] in Hnd'. inversion Hnd' as [|? ? Hj Hl]; subst.
+    destruct Hin as [H|H].
+    - injection H as -> ->. rewrite N.eqb_refl. reflexivity.
+    - destruct (N.eqb i j) eqn:E; [|exact (IH Hl H)]. apply N.eqb_eq in E. subst.
+      exfalso. apply Hj. apply (in_map fst) in H. exact H.
+  Qed.
+
+  Theorem rt_simple_all t : In t dom -> rt_simple T t = true.
+  Proof.
+    intro Ht. unfold rt_simple, rt_simple_at.
+    assert (HI : closedI [t] []).
+    { split; [intros j []|]. split; [intros j [<-|[]]; exact Ht|intros j []]. }
+    pose proof wgt_total as Hw.
+    destruct (reach_closed (rt_fuel T) [t] [] HI ltac:(unfold rt_fuel; cbn [length]; lia)) as (_ & B & C & E).
+    apply andb_true_iff. split; [apply mem_id_In; apply B; left; reflexivity|].
+    unfold rt_set. apply forallb_forall. intros i Hi.
+    destruct (dom_node i (C i Hi)) as (d & Hd & Hok & _). rewrite Hd, Hok. cbn [andb].
+    apply forallb_forall. intros c Hc. apply mem_id_In. apply (E i Hi). unfold kids. rewrite Hd. exact Hc.
+  Qed.
+End Reach.
+Open Scope N_scope.
+
 Theorem convert_rt_set cls D T :
   in_frag cls D = true -> convert_doc cls D = Some T -> rt_set T (all_ids T) = true.
 Proof.
@@ -118,4 +241,15 @@ Proof.
   destruct (Hw g Hg) as [A _]. rewrite A in Hs. injection Hs as <-.
   destruct (Hw (S f) (Nat.lt_succ_diag_r f)) as [B _].
   exact (contains_core re native T (all_ids T) HS f t v x w0 Hm Hd Hdecl B).
+Qed.
+
+(* the literal class of C03: the unverified worklist of [rt_simple] does compute a closed set of
+   [node_ok] entries, from every type of every fragment document *)
+Theorem convert_rt_simple cls D T :
+  in_frag cls D = true -> convert_doc cls D = Some T ->
+  forall t, get T t <> None -> rt_simple T t = true.
+Proof.
+  intros Hin Hc t Ht.
+  apply (rt_simple_all T (convert_nodup cls D T Hin Hc) (convert_rt_set cls D T Hin Hc)).
+  apply mem_id_In. exact (in_all_ids T t Ht).
 Qed.
